@@ -189,6 +189,13 @@ func c18GRPCMessage(run *ev.Run) {
 		}
 		msgs = append(msgs, string(b))
 	}
+	// long messages (a stack trace, a dump): plain ASCII, and text in which
+	// every character needs escaping, around sizes where an encoder might cut
+	nShort := len(msgs)
+	for _, n := range []int{1365, 1366, 4095, 4096, 4097, 8191, 8193, 20000} {
+		msgs = append(msgs, strings.Repeat("goroutine 17 [running]: main.handler(0xc000123456)\n", n/50+1)[:n])
+		msgs = append(msgs, strings.Repeat("日本語のエラー ", n/len("日本語のエラー ")))
+	}
 	reg := svc.NewRegistry()
 	hs := svc.Handlers(reg)
 	body := refcodec.AppendFrame(nil, 0, encMsg("proto", &gen.Msg{Id: 1}))
@@ -198,6 +205,10 @@ func c18GRPCMessage(run *ev.Run) {
 				continue
 			}
 			key := fmt.Sprintf("c18/grpc-message/%s/%x", protocol, m)
+			if i >= nShort {
+				key = fmt.Sprintf("c18/grpc-message/%s/long/i=%d/len=%d", protocol, i-nShort, len(m))
+				run.Count("grpc_message.long", 1)
+			}
 			if !run.Want(key) {
 				continue
 			}
